@@ -35,9 +35,10 @@ def run_native_unit(unit, tier):
                                 "native_run": {"cmd": cmd, "output": "\n".join(l for l in txt.splitlines() if "VERIF-COUNTEREXAMPLE" in l or "panicked" in l or "test result" in l)[:3000]}}})
         return [base]
     mm = re.search(r"VERIF-EXPLORED sequences=(\d+)", txt)
-    if "test result: ok" not in txt:
+    if "test result: ok" not in txt or not mm or int(mm.group(1)) == 0:
+        # vacuity guard: the enumeration must have run (a filter that matches no test also prints "test result: ok")
         tail = "\n".join(txt.splitlines()[-25:])
-        raise Undecided(f"native unit {unit['name']} did not run to completion:\n{tail[:2500]}")
+        raise Undecided(f"native unit {unit['name']} did not run to completion (no VERIF-EXPLORED line):\n{tail[:2500]}")
     base.update({"status": "verified", "reason": "", "checks_passed": 1, "failed_checks": [],
                  "explored": int(mm.group(1)) if mm else None})
     return [base]
